@@ -118,8 +118,10 @@ Fixpoint safe (p : Prog) : bool :=
       safe a && match eval_alg a with Ok x => zpath x | Err _ => true end
   | PPermute a _ | PTransposeB a _ _ =>
       safe a && match eval_alg a with Ok x => zfree x | Err _ => true end
-  | PExpand a _ | PUnsqueeze a _ | PmT a
-  | PSumBatch a _ => safe a
+  | PSumBatch a q =>
+      (* classes with their own _sum_batch for every position; the base class (-> SumBatchLinearOperator) for the last batch dim *)
+      safe a && match eval_alg a with Ok x => sumb_own x || Nat.eqb q 0 | Err _ => true end
+  | PExpand a _ | PUnsqueeze a _ | PmT a => safe a
   end.
 
 (* the dense side of add_diagonal with a 0-d diagonal *)
@@ -386,10 +388,12 @@ Proof.
     eapply BTeq_trans; [apply (alg_mT_correct a); assumption|]. apply dtr_eq. exact H1.
   - (* sum over a batch dimension *)
     simpl in HA, HD, HS. binv HA. apply guard_ok in HA0. destruct HA0 as (W & HA0).
+    rewrite E in HS. apply andb_true_iff in HS. destruct HS as (HS & SO).
     binv HD. unfold dense_sum_batch in HD0. ifd HD0. okinv HD0. apply Nat.ltb_lt in Q.
     pose proof (IHp _ _ HC HS E E0) as H1.
     eapply BTeq_trans; [apply (alg_sum_batch_correct a p0); try assumption|].
     + unfold batch. rewrite (BTeq_bsh _ _ H1). exact Q.
+    + apply orb_true_iff in SO. destruct SO as [SO|SO]; [left; exact SO|right; apply Nat.eqb_eq; exact SO].
     + apply dsumdim_eq; [exact H1|]. rewrite (BTeq_bsh _ _ H1). exact Q.
   - (* add_diagonal, 0-d diagonal *)
     apply andb_true_iff in HC. destruct HC as (HC & SD). apply scalar0b_ok in SD.
